@@ -9,10 +9,10 @@ for p in sorted(glob.glob("/verif/seeded/C??-m?/meta.json")):
         continue
     det = m.get("static_checks", {}).get("detected_by", {})
     d = " ".join("%s %s" % (k, ",".join(v)) for k, v in sorted(det.items())) or "—"
-    held = m.get("static_checks", {}).get("detected_by_the_rules_as_they_were_before_round_3")
+    held = m.get("static_checks", {}).get("detected_by_the_rules_as_they_were_before_round_%d" % rnd)
     s = m.get("summary", "").replace("|", "/").replace("\n", " ")
     rows.append((m["id"], s[:150] + ("…" if len(s) > 150 else ""), d, held))
-if rnd == 3:
+if rnd >= 3:
     print("| change | what it does (author's summary, truncated) | detected by | by the rules as they were |")
     print("|---|---|---|---|")
     for r in rows:
